@@ -194,6 +194,16 @@ func produceVerificationArgs(
 		)
 	}
 
+	// The head gate above orders heights by revision number first and the delay gate subtracts revision
+	// heights only: a proof height of another revision could lie above the head and still pass both.
+	if height.GetRevisionNumber() != cs.GetLatestHeight().GetRevisionNumber() {
+		return Proof{}, nil, sdkerrors.Wrapf(
+			sdkerrors.ErrInvalidHeight,
+			"proof height revision (%d) differs from client state revision (%d)",
+			height.GetRevisionNumber(), cs.GetLatestHeight().GetRevisionNumber(),
+		)
+	}
+
 	if proof == nil {
 		return Proof{}, nil, sdkerrors.Wrap(ErrInvalidProof, "proof cannot be empty")
 	}
